@@ -551,5 +551,6 @@ def run(rep):
     e10(rep, src)
     e11(rep, src)
     e12(rep, src)
+    e13(rep, src)
     rep.assume("sqlparser 0.46 parses NAME(args) into ast::Expr::Function with that name, except the keyword functions listed in KEYWORD_FUNCTIONS")
     rep.assume("operators are rendered through same-named ast::BinaryOperator / UnaryOperator variants (read: function_match_constructor!)")
